@@ -62,6 +62,7 @@ class Case:
     def __init__(self, spec):
         self.spec = spec
         self.sig = sig_of(spec["op"], {k: v for k, v in spec.items() if k != "op"}, None)
+        self.xr_marks = (-110, 95) if spec["dtype"] == "float32" else (-760, 720)
 
     # ------------------------------------------------------------------ the op under test, through the public API
     def forward(self, x, extra):
@@ -307,7 +308,7 @@ def enumerate_specs(tier):
             for n in ((2,) if tier == "quick" else (2, 3)):
                 specs.append({"op": op, "dtype": dt, "shape": [n]})
             # two rows whose maxima may be far apart (each row must be shifted by its own maximum)
-            specs.append({"op": op, "dtype": dt, "shape": [2, 1] if tier == "quick" else [2, 2]})
+            specs.append({"op": op, "dtype": dt, "shape": [2, 1]})
         for c in ((2,) if tier == "quick" else (2, 3)):
             for lab in range(c):
                 specs.append({"op": "cross_entropy", "dtype": dt, "shape": [1, c], "labels": [lab], "via": "F"})
